@@ -67,6 +67,32 @@ def resolve_name(fn: ast.AST, e: ast.AST, depth: int = 0) -> ast.AST:
     return e
 
 
+def const_membership(e: ast.AST):
+    """(subject text, set of constants) when e says "<subject> is one of these constants": an or-chain of `S == c`, `S in (c, ...)`
+    (tuple / list / set literal) or a mix; None otherwise."""
+    alts = e.values if isinstance(e, ast.BoolOp) and isinstance(e.op, ast.Or) else [e]
+    subj, consts = None, set()
+    for a in alts:
+        if not (isinstance(a, ast.Compare) and len(a.ops) == 1):
+            return None
+        l, r = a.left, a.comparators[0]
+        if isinstance(a.ops[0], ast.Eq):
+            if isinstance(l, ast.Constant) and not isinstance(r, ast.Constant):
+                l, r = r, l
+            if not isinstance(r, ast.Constant):
+                return None
+            s_, cs = src(l), {r.value}
+        elif isinstance(a.ops[0], ast.In) and isinstance(r, (ast.Tuple, ast.List, ast.Set)) and all(isinstance(x, ast.Constant) for x in r.elts):
+            s_, cs = src(l), {x.value for x in r.elts}
+        else:
+            return None
+        if subj not in (None, s_):
+            return None
+        subj = s_
+        consts |= cs
+    return subj, consts
+
+
 def dict_path(fn: ast.AST, e: ast.AST, depth: int = 0) -> Optional[Tuple[str, ...]]:
     """The key path an expression denotes inside a nested dict: g[a][b], g.get(a, {}).get(b), g.setdefault(a, {})[b] and a local bound to
     any of those all give (g, a, b).  None when the expression is not such an access."""
@@ -103,7 +129,7 @@ def unguarded_index(fn: ast.AST, e: ast.AST, gs) -> List[str]:
             return bad
 
 
-def conditional_defs(fn: ast.AST, e: ast.AST, depth: int = 0):
+def conditional_defs(fn: ast.AST, e: ast.AST, depth: int = 0, follow: bool = True):
     """[(value, {(positive test, truth)})]: the values an expression can have with the closed guard set each one stands under.  A name is
     followed to its assignments (each with the guards of the assignment); a conditional expression contributes one entry per arm."""
     from sa.core.paths import guards, parent_map, positive
@@ -115,7 +141,7 @@ def conditional_defs(fn: ast.AST, e: ast.AST, depth: int = 0):
             t, tr = positive(v.test, True)
             arms(v.body, gs | {(src(t), tr)})
             arms(v.orelse, gs | {(src(t), not tr)})
-        elif isinstance(v, ast.Name) and depth < 3 and defs_of(fn, v.id):
+        elif follow and isinstance(v, ast.Name) and depth < 3 and defs_of(fn, v.id):
             for v2, g2 in conditional_defs(fn, v, depth + 1):
                 out.append((v2, gs | g2))
         else:
@@ -417,6 +443,39 @@ def check_fill_scope(col, rule: str, repo: Repo):
             "other columns inside that column's if/loop", f.loc)
 
 
+def first_hit_innermost_first(gr) -> bool:
+    """generated_code.get_rep: the open blocks are asked from the innermost outwards and the first answer that is not None is returned
+    (None when no block knows the name).  Two spellings are understood: a generator over reversed(stack) consumed by next(.., None), and
+    a for loop over reversed(stack) that returns the first non-None answer; anything else is not decided here (AnalysisError)."""
+    from sa.core.paths import guards, parent_map
+    fn = gr.node
+    key = fn.args.args[1].arg
+    its = [n for n in ast.walk(fn) if isinstance(n, (ast.For, ast.comprehension)) and src(n.iter).replace(" ", "") in
+           ("reversed(self._scope_stack)", "self._scope_stack[::-1]")]
+    any_iter = [n for n in ast.walk(fn) if isinstance(n, (ast.For, ast.comprehension)) and "_scope_stack" in src(n.iter)]
+    if not its:
+        if any_iter:
+            return False                      # iterates the stack in another order
+        raise AnalysisError("generated_code.get_rep does not iterate over the scope stack: innermost-definition-wins not decided on this shape")
+    it = its[0]
+    var = src(it.target)
+    asks = [c for c in ast.walk(fn) if isinstance(c, ast.Call) and call_name(c) == "get_rep" and src(c.func.value) == var and [src(a) for a in c.args] == [key]]
+    if len(asks) != 1:
+        return False
+    if isinstance(it, ast.For):
+        pm = parent_map(fn)
+        rets = [r for r in ast.walk(it) if isinstance(r, ast.Return) and r.value is not None]
+        if len(rets) != 1:
+            return False
+        v = resolve_name(fn, rets[0].value)
+        gs = {(src(t), tr) for t, tr in guards(fn, rets[0], pm)}
+        tail_ok = all(isinstance(st, ast.Return) and (st.value is None or src(st.value) == "None") for st in fn.body[fn.body.index(it) + 1:]) if it in fn.body else False
+        return v is asks[0] and any(t.endswith(" is None") and not tr for t, tr in gs) and tail_ok
+    nxt = [c for c in ast.walk(fn) if isinstance(c, ast.Call) and call_name(c) == "next" and len(c.args) == 2 and src(c.args[1]) == "None"]
+    flt = [g for g in ast.walk(fn) if isinstance(g, ast.comprehension) and any(src(i).endswith(" is not None") for i in g.ifs)]
+    return len(nxt) == 1 and len(flt) == 1
+
+
 def check_core_scope_semantics(col, rule: str, repo: Repo):
     """The small data-structure operations every placement decision rests on (scope tokens, the cursor, blocks).
     Each obligation states what the operation must do; the oracle is the operation's contract, not its current text."""
@@ -486,8 +545,7 @@ def check_core_scope_semantics(col, rule: str, repo: Repo):
     ok = f"self._scope_stack[-1].declare_variable({dvc.node.args.args[1].arg})" in src(dvc.node)
     col.add(rule, "generated_code.declare_variable", "declares-on-the-innermost-open-block", ok, "", dvc.loc)
     gr = gc.methods["get_rep"]
-    s = src(gr.node)
-    ok = "reversed(self._scope_stack)" in s and "next(items, None)" in s
+    ok = first_hit_innermost_first(gr)
     col.add(rule, "generated_code.get_rep", "innermost-definition-wins", ok, "the lookup must walk the open blocks from the innermost outwards", gr.loc)
     sr = gc.methods["set_rep"]
     col.add(rule, "generated_code.set_rep", "defined-on-the-innermost-open-block", "self._scope_stack[-1].set_rep(name, value)" in src(sr.node), "", sr.loc)
